@@ -596,6 +596,8 @@ func run(c *core.Ctx) {
 	}
 	universeMirror(res, core.RNG("c04/mirror"))
 	doubleDial(res, core.RNG("c04/doubledial"))
+	foreignAck(res, core.RNG("c04/foreignack"))
+	pingThenImpostor(res, core.RNG("c04/pingimpostor"))
 	res.Sample(jobs[0].String())
 	res.Sample(jobs[len(jobs)/2].String())
 	res.Sample(jobs[len(jobs)-1].String())
@@ -621,6 +623,7 @@ func run(c *core.Ctx) {
 	res.Require(res.Counter("scripted_handshakes_completed") >= 1, "the scripted client never completed its positive-control handshake (%d unusable runs)", res.Counter("scripted_handshake_unusable"))
 	res.Require(res.Counter("universe_secret_intruders_refused") >= 2 || res.ViolationCount() > 0, "universe-secret intruder scenario not exercised")
 	res.Require(res.Counter("double_dial_second_connection_refused")+res.Counter("double_dial_second_link_sealed") >= 1 || res.ViolationCount() > 0, "double-dial scenario never reached its decisive step")
+	res.Require(res.Counter("foreign_acks_refused") >= 1 || res.ViolationCount() > 0, "foreign-ack scenario never reached its decisive step")
 	res.Require(res.Counter("honest_handshakes_completed") >= 8, "too few honest handshakes completed (positive control)")
 	res.Require(res.Counter("faults_refused:bitflip") >= 500, "fewer than 500 bit-flip faults reached an authenticated byte")
 }
